@@ -196,6 +196,49 @@ def _merge_table(R, tf):
         raise EngineError("C20.merge: no token merge site found in tokenize (anchors lost)")
 
 
+def _char_counter_slices(R, tf):
+    """C20.slice: the tokenizer reads the text as a stream of characters; where it also cuts the text by position, the positions are byte
+    offsets - never a counter that advances by one per character (a non-ASCII character in a comment or a literal, which must not
+    change the parse, would shift every later cut)"""
+    P = R.prog
+    R.rule("C20.slice", "no slice of the input text in the tokenizer is addressed by a per-character counter (a field or local advanced "
+                        "by the constant 1): byte offsets and character counts differ as soon as a comment or literal holds a non-ASCII character")
+    cuts = [c for c in tf.calls if re.search(r"Index<I> for str>::index$|^core::str::<impl str>::(get|split_at|get_unchecked|split_at_checked)$", short(c.name))
+            and c.args and any(o.kind == "arg" and o.arg == 1 for o in F.origins(tf, c.args[0], depth=8))]
+    # counters: fields (of any local struct) / locals of tokenize's family that are advanced by `+ 1`
+    fam = [tf] + [g for g in P.fns.values() if g.target == "lib" and (g.spath.startswith(tf.spath + "::") or g.parent_key == getattr(tf, "key", None))]
+    ones = set()
+    for g in fam:
+        for _, st in g.stmts():
+            if st["k"] == "assign" and st["rv"]["k"] == "binop" and st["rv"]["op"] in ("Add", "AddWithOverflow", "AddUnchecked"):
+                l_, r_ = st["rv"]["l"], st["rv"]["r"]
+                if r_.get("k") == "const" and r_.get("int") == 1 and l_.get("k") in ("copy", "move"):
+                    fl = place_fields(l_["pl"])
+                    if fl:
+                        ones.add(("field", fl[-1]))
+                    elif g is tf:
+                        ones.add(("local", l_["pl"]["l"]))
+    bad = []
+    for c in cuts:
+        seen_pl = []
+        for a_ in c.args[1:]:
+            if a_.get("k") in ("copy", "move"):
+                F.origins(tf, a_, depth=12, visit=seen_pl.append)
+        for pl in seen_pl:
+            fl = place_fields(pl)
+            if (fl and ("field", fl[-1]) in ones) or (not fl and ("local", pl["l"]) in ones and not pl["p"]):
+                bad.append((c, fl[-1] if fl else tf.local_name(pl["l"]) or "_%d" % pl["l"]))
+                break
+    if bad:
+        for c, nm in bad[:2]:
+            R.violation("C20.slice", "tokenize|char-counter-slice|%s" % nm,
+                        "tokenize cuts the input text at `%s`, which counts characters (+1 per character) while str positions are bytes: a "
+                        "non-ASCII character in an earlier comment or string literal shifts the cut, so two texts that differ only in a comment "
+                        "tokenize differently (or the slice panics)" % nm, [c.loc()])
+    else:
+        R.ok("C20.slice", "tokenize", "%d cut(s) of the input text, none addressed by a per-character counter" % len(cuts), tf.loc(), nontrivial=False)
+
+
 def run(R):
     P = R.prog
     R.rule("C20.case", "every lookup of a keyword, function, aggregate, type or modifier name (static-table lookups, ValueType::from_str, "
@@ -310,6 +353,7 @@ def run(R):
         R.ok("C20.layout", "statement-types", "no TokenLocation field in Statement / ExpressionTree / TableDefinition", "src/model.rs")
     # ---- verbatim string literals
     tf = R.need_fn("sqlgrep::parsing::tokenizer::tokenize")
+    _char_counter_slices(R, tf)
     pushes = [c for c in tf.calls if short(c.name) == "alloc::string::String::push"]
     folds = [c for c in tf.calls if LOWER.search(short(c.name))]
     # the push into current_str: receiver derives from the Option<String> named current_str
